@@ -34,8 +34,8 @@ def cases(tier, seed, shard, nshards):
                   bad_kinds=["unknown-pool", "unknown-pool", "unknown-pool", "reassign", "suspend-unknown", "suspend-wrong-pool"],
                   integer_sizes=rng.random() < 0.7, p_suspend=rng.choice([0.2, 0.6, 1.0]), mem_heavy=rng.random() < 0.6,
                   p_unready=0.0, pools=rng.choice([1, 2, 3, 4]), npipes=rng.randint(3, 14), p_assign=0.8, maxn=4)
-        if tier == "thorough" and i % 250 == 0:
-            kw.update(steps=20000, npipes=80, p_bad=0.0, drain=3000)
+        if tier == "thorough" and i % 1500 == 0:
+            kw.update(steps=8000, npipes=40, p_bad=0.0, drain=3000)
         yield _exec.mix_case(rng, i, **kw)
     for i in range(N_SIM[tier]):
         yield _sim.random_sim_case(rng, small=True)
